@@ -37,7 +37,10 @@ import (
 const (
 	fixedBudget   = 4 << 20 // "fixed small caps": 4 MiB
 	perByteBudget = 64
-	asLimit       = 8 << 30 // RLIMIT_AS of the child: an allocation beyond it is a clean fatal error
+	// RLIMIT_AS of the child. The child's address space peaks at ~1.5 GiB (runtime reservations; its
+	// resident set stays below 300 MiB), so a single allocation of more than ~1.5 GiB is a clean,
+	// immediate "out of memory" fatal error instead of seconds of page faulting.
+	asLimit = 3 << 30
 )
 
 var tokens = [][]byte{
